@@ -356,6 +356,29 @@ theorem C01_strategy_cache_key_must_separate {R K S : Type} [DecidableEq K] (key
   simp only [List.map_cons, List.map_nil, List.cons.injEq, and_true, true_and] at e
   exact hne e
 
+/-- **The configured string restrictions survive the strategy caches (repaired keys).**  For every history of requests one
+    loaded operation receives — any locations, factories, explicit names, and ANY generation settings per request
+    (`allow_x00`, `codec`, custom header strategy: the same operation object used by several tests, runs or configurations)
+    — every request is answered with a strategy built under ITS OWN settings, for parameters and for bodies alike. -/
+theorem C01_strategy_caches_respect_generation_settings (ps : List GenParamReq) (bs : List GenBodyReq) :
+    runCache (genParamKey .repaired) buildGenParam [] ps = ps.map buildGenParam ∧
+    runCache (genBodyKey .repaired) buildGenBody [] bs = bs.map buildGenBody := by
+  refine ⟨C01_strategy_cache_transparent _ _ ps ?_, C01_strategy_cache_transparent _ _ bs ?_⟩
+  · intro r _ r' _ h
+    simp only [genParamKey, Prod.mk.injEq, Option.some.injEq] at h
+    simp only [buildGenParam, Prod.mk.injEq]; exact h
+  · intro r _ r' _ h
+    simp only [genBodyKey, Prod.mk.injEq, Option.some.injEq] at h
+    simp only [buildGenBody, Prod.mk.injEq]; exact ⟨⟨h.1.1, h.1.2⟩, h.2⟩
+
+/-- as found (finding FC01d): the settings are not in the key — the second configuration is answered with the first one's
+    strategy: `allow_x00 = false, codec = ascii` after `allow_x00 = true, codec = utf-8` still yields NULs and non-ASCII -/
+theorem C01_strategy_cache_ignores_settings_full_false :
+    runCache (genParamKey .asFound) buildGenParam []
+        [⟨⟨.positive, "query", []⟩, ⟨true, some "utf-8", none⟩⟩, ⟨⟨.positive, "query", []⟩, ⟨false, some "ascii", none⟩⟩] =
+      [(paramKey ⟨.positive, "query", []⟩, ⟨true, some "utf-8", none⟩), (paramKey ⟨.positive, "query", []⟩, ⟨true, some "utf-8", none⟩)] := by
+  decide
+
 /-- **C01_body_strategy_is_for_own_alternative.** For every history of body-strategy requests that one operation
     receives (any interleaving of alternatives, repeats, positive and negative factories), every request is answered
     with the strategy of the requested alternative: the user-registered one for its media type, or the one built from
